@@ -150,6 +150,60 @@ Section C19.
       num_or_tup delta -> (feas i = false -> num_or_tup (dval1 W dist i)) ->
       exists v, fst (delta_penalty W feas delta dist func i a) = Ok v.
   Proof. exact (delta_total W). Qed.
+  (* ---- further consequences ---- *)
+  (* infeasible, constant penalty: outcome and log are the same whatever the evaluation function and
+     the extra arguments are (a semantic form of "does not call the evaluation function") *)
+  Theorem C19_delta_ignores_evaluator :
+    forall feas delta dist (func func' : I -> Args -> val) i (a a' : Args),
+      feas i = false ->
+      delta_penalty W feas delta dist func i a = delta_penalty W feas delta dist func' i a'.
+  Proof. exact (delta_ignores_evaluator W). Qed.
+
+  (* infeasible, closest valid: the evaluation function matters only through its value at valid(x) *)
+  Theorem C19_closest_only_valid_point :
+    forall feas fbl alpha dist (func func' : I -> Args -> val) i (a : Args),
+      feas i = false ->
+      func (fbl i) a = func' (fbl i) a ->
+      closest_valid_penalty W feas fbl alpha dist func i a =
+      closest_valid_penalty W feas fbl alpha dist func' i a.
+  Proof. exact (closest_only_valid_point W). Qed.
+
+  (* no distance function (or alpha == 0): exactly the constant / the closest valid fitness *)
+  Theorem C19_delta_without_distance :
+    forall feas delta (func : I -> Args -> val) i a,
+      feas i = false -> num_or_tup delta ->
+      exists r, delta_penalty W feas delta None func i a = (Ok (VTup r), [EFeas i]) /\
+        forall k, (k < length r)%nat -> nth k r 0 == vnth k delta.
+  Proof. exact (delta_without_distance W). Qed.
+
+  Theorem C19_closest_without_penalty :
+    forall feas fbl alpha dist (func : I -> Args -> val) i a fv,
+      feas i = false -> func (fbl i) a = VTup fv -> length fv = length (W i) ->
+      num_or_tup (dval2 W dist (fbl i) i) ->
+      dist = None \/ alpha == 0 ->
+      exists r log, closest_valid_penalty W feas fbl alpha dist func i a = (Ok (VTup r), log) /\
+        forall k, (k < length r)%nat -> nth k r 0 == nth k fv 0.
+  Proof. exact (closest_without_penalty W). Qed.
+
+  (* strictly worse as soon as the charged distance is positive (and alpha > 0) on a non-zero weight *)
+  Theorem C19_delta_strictly_worse :
+    forall feas delta dist (func : I -> Args -> val) i a r log,
+      feas i = false -> num_or_tup delta -> num_or_tup (dval1 W dist i) ->
+      delta_penalty W feas delta dist func i a = (Ok (VTup r), log) ->
+      forall k, (k < length r)%nat -> 0 < vnth k (dval1 W dist i) ->
+        let w := nth k (W i) 0 in
+        (0 < w -> nth k r 0 < vnth k delta) /\ (w < 0 -> vnth k delta < nth k r 0).
+  Proof. exact (delta_strictly_worse W). Qed.
+
+  Theorem C19_closest_strictly_worse :
+    forall feas fbl alpha dist (func : I -> Args -> val) i a fv r log,
+      feas i = false -> func (fbl i) a = VTup fv -> length fv = length (W i) ->
+      num_or_tup (dval2 W dist (fbl i) i) ->
+      closest_valid_penalty W feas fbl alpha dist func i a = (Ok (VTup r), log) ->
+      forall k, (k < length r)%nat -> 0 < alpha -> 0 < vnth k (dval2 W dist (fbl i) i) ->
+        let w := nth k (W i) 0 in
+        (0 < w -> nth k r 0 < nth k fv 0) /\ (w < 0 -> nth k fv 0 < nth k r 0).
+  Proof. exact (closest_strictly_worse W). Qed.
 End C19.
 
 Print Assumptions C19_feasible_passthrough_delta.
@@ -164,6 +218,12 @@ Print Assumptions C19_closest_never_better.
 Print Assumptions C19_delta_monotone_in_distance.
 Print Assumptions C19_closest_monotone_in_distance.
 Print Assumptions C19_delta_total.
+Print Assumptions C19_delta_ignores_evaluator.
+Print Assumptions C19_closest_only_valid_point.
+Print Assumptions C19_delta_without_distance.
+Print Assumptions C19_closest_without_penalty.
+Print Assumptions C19_delta_strictly_worse.
+Print Assumptions C19_closest_strictly_worse.
 
 (* non-vacuity: two objectives (maximise, minimise), scalar constant 10, distance (1/2, 2):
    the infeasible individual gets (10 - 1/2, 10 + 2) and the evaluator is not called;
